@@ -88,6 +88,12 @@ CHECKS = {
    technique="symbolic execution of go/ssa on a cooperative scheduler, DFS over scheduling decisions with a preemption bound (bounded model checking)",
    design="5/C13"),
 
+ "C16": dict(
+   text="Bounded model checking of both shared-cache implementations (Store, Fetch, CleanEntry of the lock-based mutable cache and of the immutable cache) with everything beneath them executed from real source: TransferFiles/getHash, the real zip writer and reader (archive/zip, compress/flate), xxhash, the copy/move/remove code of the filesystem package, the real RemoteLockFile with its heartbeat goroutine and time-outs on a virtual clock, over afero's real MemMapFs shared by several clients. (1) Interrupted Store: a second Store is hit at its k-th backend operation for EVERY k by a single failure, a process stop, or a stop in the middle of a write; after stale-lock / old-version cleaning a Fetch by another client either fails or installs exactly one complete stored version, a Store that reported success is what the Fetch returns, and the sources are untouched. (2) Concurrent clients: another client's complete Fetch / Store / CleanEntry placed inside a Store, and a complete Store and/or CleanEntry placed inside a Fetch, before the k-th backend operation for every k: every successful Fetch installs exactly one complete version that had been stored. The check found two genuine defects, both fixed (Zip dropped the archive writer's Close error; a stale hash file survived a failed hash update) and records one known finding that only exists on the in-memory backend.",
+   note="One preemption per interleaving with an atomic interferer (natively replayable); crash = nothing the client does afterwards has any effect, at the granularity of one backend call (a write may be half done). The operating-system backend, torn writes inside one call, more than one preemption and large packages are outside. UUID generation and the reflection-based configuration validation are stubbed under the engine; native replays use the real ones.",
+   technique="symbolic execution of go/ssa with DFS over fault / preemption positions (bounded model checking), virtual clock, native replay",
+   design="0.3/C16"),
+
  "C06": dict(
    text="Bounded exhaustive exploration of programs of 1 (thorough 1..2) filesystem-API calls -- MkDir, WriteFile, Rm, CleanDir, TouchTempFile, Copy, CopyToDirectory, Move, IsDir, Exists, Ls, ReadFile -- over the path alphabet {/a, /a/b, /a/b/c, /d, /d/e} from 5 initial trees (so that source = / parent of / inside the destination, missing/existing entries and file-versus-directory conflicts occur), real code on afero's real MemMapFs behind a recording wrapper: every call terminates (<= 400 backend operations), leaves no handle open, changes nothing but its destination (plus newly created ancestor directories; for Move also the source), a copy leaves its source untouched (contents, permissions and modification times), query calls change nothing and answer exactly what the tree says. Under faults (the k-th backend operation of a copy / write / read / listing / file move / directory move fails, rename possible or not): no handle stays open, the source of a copy is untouched, a move never loses a file (every source file is still at the source or has arrived at the destination). Six known-finding regions are recorded (copy into own subtree diverges; move into own subtree crashes the in-memory backend; entries created beneath a file on the in-memory backend; that backend left inconsistent after a conflicting call; copy of a file onto itself re-stamps it; the directory-move fallback deletes a source it could not read).",
    note="Only the second sentence of the property is claimed (plus exact answers of the query calls): agreement of return values and resulting trees with a reference model of cp -r / mv on BOTH backends is not claimed -- the OS backend cannot be executed symbolically and the doc comments leave Copy's destination resolution open.",
@@ -97,7 +103,6 @@ CHECKS = {
 NA = {
  "C05": "the property is about operating-system process groups, signals and inherited pipes: that state lives in the kernel, not in Go code that could be encoded; the Go side (exec.CommandContext, Setpgid, a delayed kill) only configures kernel behaviour, so a symbolic execution would verify stubs of my own making",
  "C15": "configuration loading runs through viper, mapstructure, pflag and godotenv, i.e. deep reflection over arbitrary struct types and the process environment; the engine models only a sliver of reflect and modelling viper would check my model, not the code",
- "C16": "a Store/Fetch of the shared cache chains zip (deflate), xxhash, UUID generation, temp directories and the file lock across real crash semantics of a filesystem; once all of those are stubbed the substance of the property (completeness of what a Fetch installs across crashes and concurrent clients) is no longer in the encoded part; the lock and the archive code it builds on are covered by C01/C17 and C02/C03/C07",
 }
 def main():
     checks=[]
